@@ -126,7 +126,12 @@ class Session:
             r = Req(rng, allow_10)
             self.reqs.append(r)
             if r.close:
-                break  # a client that announced close (or speaks HTTP/1.0) sends nothing more
+                break  # a client that announced close (or speaks HTTP/1.0) has no further request answered
+        # ... but some clients send on regardless: another request, or a fragment of one, after the closing one
+        self.surplus = b""
+        if self.reqs[-1].close and rng.random() < 0.35:
+            self.surplus = rng.choice([b"GET /surplus HTTP/1.1\r\nHost: x\r\n\r\n", b"GET /surp", b"\r\n", b"\x00\xffjunk\r\n\r\n",
+                                       b"POST /surplus HTTP/1.1\r\nHost: x\r\nContent-Length: 3\r\n\r\nabc"])
         self.plans = [AppPlan(rng, r) for r in self.reqs]
         if not crashes:
             for p in self.plans:
@@ -155,7 +160,7 @@ class Session:
         app = S.scripted_app([p.steps() for p in self.plans], self.records, self.driver)
         self.rig = S.ProtoRig(app, cfg, self.driver, worker=self.worker)
         self.rig.tg.on_spawn_app = lambda inst: self.spawn_marks.append(len(self.rig.transport.written))
-        stream = b"".join(r.wire() for r in self.reqs) + extra_bytes
+        stream = b"".join(r.wire() for r in self.reqs) + self.surplus + extra_bytes
         self.stream = stream
         if splits is None:
             k = rng.choice([0, 0, 1, 2, 5, 12])
@@ -236,7 +241,7 @@ class Session:
 
     def describe(self):
         return {"requests": [r.describe() for r in self.reqs], "plans": [p.describe() for p in self.plans],
-                "max_requests": self.max_requests, "server_names": self.server_names, "policy": self.policy,
+                "surplus": repr(getattr(self, "surplus", b"")), "max_requests": self.max_requests, "server_names": self.server_names, "policy": self.policy,
                 "responses": [{"status": r["status"], "complete": r["complete"], "body_len": len(r["body"])} for r in getattr(self, "responses", [])],
                 "instances": len(getattr(self, "records", [])), "events": getattr(self.rig, "events", None) if hasattr(self, "rig") else None}
 
@@ -396,6 +401,12 @@ def oracle_c06(s: Session):
                     fails.append((f"response {k} does not announce connection: close ({'limit' if limit_hit else 'client asked'})", "c06:close-announced"))
             if not s.closed_by_server and plan.completes():
                 fails.append((f"server did not close after request {k}", "c06:closed"))
+            if plan.completes() and s.parse_problem is None:
+                # the closing response is the last thing on the wire, whatever else the client sent after that request
+                if not resp["complete"] and s.reqs[k].method != "HEAD":
+                    fails.append((f"the response to request {k}, after which the connection closes, was not completed", "c06:last-response-cut"))
+                elif resp["complete"] and s.trailing:
+                    fails.append((f"bytes on the wire after the closing response {k}: {bytes(s.trailing)[:60]!r}", "c06:bytes-after-closing-response"))
             break
     return fails
 
